@@ -353,59 +353,76 @@ func worldNatHole(w *World) {
 		}
 	}
 
-	// two honest peers on an unfiltered network that follow the instructions find each other
+	// two honest peers on an unfiltered network that follow the instructions find each other - at the first
+	// rendezvous of an address pair and at every later one: without success reports the server walks through its
+	// list of recommendations (roles, delays, port ranges), and each of them must work. Each peer starts acting on its
+	// instructions at the moment they arrive, as a real client does.
 	if w.KnobBool("makehole", 70) {
-		w.Check("C20.makehole-meets")
-		vconn, err1 := simnet.ListenUDP("udp4", &net.UDPAddr{IP: net.ParseIP("10.0.5.1")})
-		oconn, err2 := simnet.ListenUDP("udp4", &net.UDPAddr{IP: net.ParseIP("10.0.5.2")})
-		if err1 != nil || err2 != nil {
-			w.Fail("udp listen: %v %v", err1, err2)
+		rounds := w.KnobPick("makehole_rounds", 1, 1, 3, 8, 12)
+		toMsg := func(m M) *msg.NatHoleResp {
+			b, _ := json.Marshal(m)
+			out := &msg.NatHoleResp{}
+			json.Unmarshal(b, out)
+			return out
 		}
-		va, oa := vconn.LocalAddr().String(), oconn.LocalAddr().String()
-		ts := time.Now().Unix()
-		vfrom, cfrom := len(vis.Inbox), len(owner.Inbox)
-		before := sidsSeen()
-		vis.Send(tNatHoleVisitor, M{"transaction_id": "mv", "proxy_name": "px", "protocol": "quic", "sign_key": authKey(sk, ts), "timestamp": ts, "mapped_addrs": []string{va, va}, "assisted_addrs": []string{va}})
-		if w.WaitUntil(8*time.Second, 20*time.Millisecond, func() bool { return sidsSeen() > before }) {
-			sid := lastSid()
-			owner.Send(tNatHoleClient, M{"transaction_id": "mc", "proxy_name": "px", "sid": sid, "mapped_addrs": []string{oa, oa}, "assisted_addrs": []string{oa}})
-			vr, vok := waitResp(vis, vfrom, "mv", 15*time.Second)
-			cr, cok := waitResp(owner, cfrom, "mc", 15*time.Second)
-			if vok && cok && mstr(vr, "error") == "" && mstr(cr, "error") == "" {
-				toMsg := func(m M) *msg.NatHoleResp {
-					b, _ := json.Marshal(m)
-					out := &msg.NatHoleResp{}
-					json.Unmarshal(b, out)
-					return out
-				}
-				type res struct {
-					addr string
-					err  error
-				}
-				ch := make(chan res, 2)
-				go func() {
-					_, ra, err := nathole.MakeHole(context.Background(), vconn, toMsg(vr), []byte(sk))
-					s := ""
-					if ra != nil {
-						s = ra.String()
-					}
-					ch <- res{s, err}
-				}()
-				go func() {
-					_, ra, err := nathole.MakeHole(context.Background(), oconn, toMsg(cr), []byte(sk))
-					s := ""
-					if ra != nil {
-						s = ra.String()
-					}
-					ch <- res{s, err}
-				}()
-				r1, r2 := <-ch, <-ch
-				if r1.err != nil || r2.err != nil {
-					viol("makehole", "peers-do-not-meet", "two peers at %s and %s following their instructions (%v / %v) did not find each other: %v / %v", va, oa, vr["detect_behavior"], cr["detect_behavior"], r1.err, r2.err)
-				} else if !((r1.addr == va && r2.addr == oa) || (r1.addr == oa && r2.addr == va)) {
-					viol("makehole", "peers-meet-wrong-address", "peers at %s and %s ended up with remote addresses %s and %s", va, oa, r1.addr, r2.addr)
-				}
+		for round := 0; round < rounds; round++ {
+			w.Check("C20.makehole-meets")
+			vconn, err1 := simnet.ListenUDP("udp4", &net.UDPAddr{IP: net.ParseIP("10.0.5.1")})
+			oconn, err2 := simnet.ListenUDP("udp4", &net.UDPAddr{IP: net.ParseIP("10.0.5.2")})
+			if err1 != nil || err2 != nil {
+				w.Fail("udp listen: %v %v", err1, err2)
 			}
+			va, oa := vconn.LocalAddr().String(), oconn.LocalAddr().String()
+			ts := time.Now().Unix()
+			vfrom, cfrom := len(vis.Inbox), len(owner.Inbox)
+			before := sidsSeen()
+			tv, tc := fmt.Sprintf("mv%d", round), fmt.Sprintf("mc%d", round)
+			vis.Send(tNatHoleVisitor, M{"transaction_id": tv, "proxy_name": "px", "protocol": "quic", "sign_key": authKey(sk, ts), "timestamp": ts, "mapped_addrs": []string{va, va}, "assisted_addrs": []string{va}})
+			if !w.WaitUntil(8*time.Second, 20*time.Millisecond, func() bool { return sidsSeen() > before }) {
+				vconn.Close()
+				oconn.Close()
+				break
+			}
+			sid := lastSid()
+			owner.Send(tNatHoleClient, M{"transaction_id": tc, "proxy_name": "px", "sid": sid, "mapped_addrs": []string{oa, oa}, "assisted_addrs": []string{oa}})
+			type res struct {
+				addr  string
+				err   error
+				instr any
+				skip  bool
+			}
+			ch := make(chan res, 2)
+			run := func(c *lcClient, from int, tid string, conn *simnet.UDPConn) {
+				m, ok := waitResp(c, from, tid, 20*time.Second)
+				if !ok || mstr(m, "error") != "" {
+					ch <- res{skip: true}
+					return
+				}
+				_, ra, err := nathole.MakeHole(context.Background(), conn, toMsg(m), []byte(sk))
+				a := ""
+				if ra != nil {
+					a = ra.String()
+				}
+				ch <- res{addr: a, err: err, instr: m["detect_behavior"]}
+			}
+			go run(vis, vfrom, tv, vconn)
+			go run(owner, cfrom, tc, oconn)
+			r1, r2 := <-ch, <-ch
+			vconn.Close()
+			oconn.Close()
+			if r1.skip || r2.skip {
+				break
+			}
+			if r1.err != nil || r2.err != nil {
+				viol("makehole", "peers-do-not-meet", "rendezvous %d of the same two peers (no success reported so far): peers at %s and %s following their instructions (%v / %v) did not find each other: %v / %v", round+1, va, oa, r1.instr, r2.instr, r1.err, r2.err)
+				break
+			} else if !((r1.addr == va && r2.addr == oa) || (r1.addr == oa && r2.addr == va)) {
+				viol("makehole", "peers-meet-wrong-address", "peers at %s and %s ended up with remote addresses %s and %s", va, oa, r1.addr, r2.addr)
+				break
+			}
+			w.Probe("nathole.makehole_round_met")
+			// (no NatHoleReport: the next rendezvous gets the next recommendation)
+			time.Sleep(time.Duration(w.R.Range(1, 5)) * time.Second)
 		}
 	}
 	w.SetSample(map[string]any{"sessions": nsessions, "mux": tcpMux})
